@@ -40,6 +40,7 @@ class Ctx:
         self.E: List[Any] = []
         self.H: Dict[str, List[Any]] = {}
         self.gen_log: List[Any] = []
+        self.injected_now: List[str] = []  # request ids a co-simulation client added before this step (no add event exists for them)
         self.states: List[Any] = []
         self.violations: List[Dict[str, Any]] = []
         self._vcount: collections.Counter = collections.Counter()
@@ -249,6 +250,7 @@ def inject_request(ctx: Ctx, rp, k: int):
     if isinstance(res, Failure):
         return rp
     ctx.count("injected_requests")
+    ctx.injected_now.append(req.id)
     return rp._replace(s=res.unwrap())
 
 
@@ -298,6 +300,7 @@ def run_trace(case: Dict[str, Any]) -> Dict[str, Any]:
             ctx.k = k
             ctx.t = int(rp.s.sim_time)
             ctx.prev = rp.s
+            del ctx.injected_now[:]
             if ctx.opts.get("cosim_noops") and k > 0 and k % int(ctx.opts["cosim_noops"]) == 0:
                 # what a co-simulation client may do between calls without changing anything: hand the payload the
                 # generators it already has (runner_payload_ops.set_instruction_generators)
